@@ -163,6 +163,8 @@ def run_impl(case):
             return {"error": common.err_kind(e), "msg": str(e)[:200]}
     if kind == "history":
         return run_history(case)
+    if kind == "sweep":
+        return run_sweep(case)
     vmin, vmax = bits_float(case["vmin"]), bits_float(case["vmax"])
     rows, cols = case["shape"]
     try:
@@ -174,7 +176,7 @@ def run_impl(case):
         return {"error": common.err_kind(e), "msg": f"{type(e).__name__}: {e}"[:300]}
 
 
-def convert_on(det, case):
+def convert_on(det, case, detector_kind="CCD"):
     """one conversion of `case`'s frame on the detector object `det` (whatever it held before);
     → {"codes", "dtype", "shape"} (+ "plain" for the noisy SAR) | {"error"}"""
     import numpy as np
@@ -209,7 +211,7 @@ def convert_on(det, case):
         out = {"codes": [int(x) for x in img.reshape(-1)], "dtype": str(img.dtype), "shape": list(img.shape)}
         if kind == "sar_noise":
             # the statement compares with the plain SAR on the same frame (fresh detector)
-            det2 = pyx.make_detector("CCD", rows, cols, characteristics={"adc_bit_resolution": case["bits"], "adc_voltage_range": (vmin, vmax)})
+            det2 = pyx.make_detector(detector_kind, rows, cols, characteristics={"adc_bit_resolution": case["bits"], "adc_voltage_range": (vmin, vmax)})
             det2.signal.array = frame.copy()
             with warnings.catch_warnings(), np.errstate(all="ignore"):
                 warnings.simplefilter("ignore")
@@ -225,31 +227,114 @@ def convert_on(det, case):
         return {"error": common.err_kind(e), "msg": f"{type(e).__name__}: {e}"[:300]}
 
 
+REFUSED_BITS = [3, 2, 0, -1, 65, 100]          # outside 4..64: every characteristics class refuses them
+REFUSED_RANGE = [[1.0, 2.0, 3.0], [1.0], 5.0]   # not a pair
+
+
+def attempt_refused(det, r):
+    """try to change a converter setting to a value that must be refused; → True when it was refused (raised)"""
+    key = "adc_bit_resolution" if r["what"] == "bits" else "adc_voltage_range"
+    value = r["value"]
+    try:
+        if r["via"] == "processor":
+            from pyxel.pipelines import DetectionPipeline, Processor
+
+            Processor(detector=det, pipeline=DetectionPipeline()).set("detector.characteristics." + key, value, convert_value=False)
+        else:
+            setattr(det.characteristics, key, tuple(value) if isinstance(value, list) else value)
+    except Exception:  # noqa: BLE001
+        return True
+    return False
+
+
 def run_history(case):
-    """2–4 conversions on ONE detector object: settings changed through the public setters of
-    `detector.characteristics`, the image bucket emptied or not in between; → {"steps": [impl per conversion]}"""
+    """2–4 conversions on ONE detector object (CCD / CMOS / MKID / APD): settings changed through the public setters
+    of `detector.characteristics` (or kept), refused changes attempted in between (setter or Processor.set), the
+    image bucket emptied or not; → {"steps": [impl per conversion (+ "refused": [bool …])]}"""
     import pyx
 
     ops = case["ops"]
     rows, cols = case["shape"]
     first = ops[0]
     try:
-        det = pyx.make_detector("CCD", rows, cols, characteristics={
+        det = pyx.make_detector(case.get("detector", "CCD"), rows, cols, characteristics={
             "adc_bit_resolution": first["bits"], "adc_voltage_range": (bits_float(first["vmin"]), bits_float(first["vmax"]))})
     except Exception as e:  # noqa: BLE001
         return {"error": common.err_kind(e), "msg": f"{type(e).__name__}: {e}"[:300]}
     steps = []
     for op in ops:
+        refused = [attempt_refused(det, r) for r in op.get("refused", [])]
         try:
-            det.characteristics.adc_bit_resolution = op["bits"]
-            det.characteristics.adc_voltage_range = (bits_float(op["vmin"]), bits_float(op["vmax"]))
+            if not op.get("keep"):  # `keep`: the settings in force stay the last accepted ones, nothing is set again
+                det.characteristics.adc_bit_resolution = op["bits"]
+                det.characteristics.adc_voltage_range = (bits_float(op["vmin"]), bits_float(op["vmax"]))
             if op.get("empty_before"):
                 det.image.empty()
         except Exception as e:  # noqa: BLE001
-            steps.append({"error": common.err_kind(e), "msg": f"setting up the conversion: {type(e).__name__}: {e}"[:300]})
+            steps.append({"error": common.err_kind(e), "msg": f"setting up the conversion: {type(e).__name__}: {e}"[:300], "refused": refused})
             continue
-        steps.append(convert_on(det, op))
+        st = convert_on(det, op, detector_kind=case.get("detector", "CCD"))
+        st["refused"] = refused
+        steps.append(st)
     return {"steps": steps}
+
+
+def sweep_pipeline(case):
+    import pyx
+
+    conv = {"simple": "simple_adc", "sar": "sar_adc"}[case["conv"]]
+    return pyx.make_pipeline({
+        "charge_measurement": [{"name": "frame", "func": "probes.c16_signal", "arguments": {"patterns": list(case["vs"]), "shape": list(case["shape"])}}],
+        "readout_electronics": [{"name": conv, "func": "pyxel.models.readout_electronics." + conv}]})
+
+
+def run_sweep(case):
+    """the converter run through `pyxel.run_mode` by an Observation sweeping adc_bit_resolution (sequential or dask);
+    → {"runs": [impl of the image of each swept resolution, in sweep order]}"""
+    import dask
+    import numpy as np
+    import pyx
+    import pyxel
+    from pyxel.observation import Observation, ParameterValues
+
+    rows, cols = case["shape"]
+    try:
+        det = pyx.make_detector(case.get("detector", "CCD"), rows, cols, characteristics={
+            "adc_bit_resolution": case["initial_bits"], "adc_voltage_range": (bits_float(case["vmin"]), bits_float(case["vmax"]))})
+        obs = Observation(parameters=[ParameterValues(key="detector.characteristics.adc_bit_resolution", values=list(case["bits_list"]))],
+                          mode="product", with_dask=case["with_dask"])
+        with warnings.catch_warnings(), np.errstate(all="ignore"), dask.config.set(scheduler="synchronous"):
+            warnings.simplefilter("ignore")
+            dt = pyxel.run_mode(mode=obs, detector=det, pipeline=sweep_pipeline(case))
+            image = None
+            for node in dt.subtree:
+                if "image" in node.data_vars:
+                    image = node.to_dataset()["image"].compute()
+                    break
+        if image is None:
+            return {"error": "Other:no-image", "msg": "the result holds no image bucket"}
+        pdims = [d for d in image.dims if d not in ("time", "y", "x")]
+        if len(pdims) != 1:
+            return {"error": "Other:dims", "msg": f"unexpected dimensions {image.dims}"}
+        # the coordinate labelling the runs with the swept value
+        labels = None
+        for c in image.coords.values():
+            if tuple(c.dims) == (pdims[0],) and sorted(int(v) for v in np.asarray(c.values).tolist()) == sorted(case["bits_list"]):
+                labels = [int(v) for v in np.asarray(c.values).tolist()]
+        if labels is None:
+            return {"error": "Other:labels", "msg": "no coordinate carries the swept resolutions"}
+        runs = []
+        for b in case["bits_list"]:
+            sl = image.isel({pdims[0]: labels.index(b)})
+            if "time" in sl.dims:
+                sl = sl.isel(time=-1)
+            arr = np.asarray(sl.values)
+            runs.append({"codes": [int(x) for x in arr.reshape(-1)], "dtype": str(image.dtype), "shape": list(arr.shape)})
+        return {"runs": runs}
+    except common.InfraError:
+        raise
+    except Exception as e:  # noqa: BLE001
+        return {"error": common.err_kind(e), "msg": f"{type(e).__name__}: {e}"[:300]}
 
 
 # ------------------------------------------------------------------ model side
@@ -363,18 +448,85 @@ def op_name(op):
     return {"simple": "simple_adc", "sar": "sar_adc", "sar_noise": "sar_adc_with_noise"}[op["kind"]]
 
 
+def unjudged_ops(case, impl):
+    """conversions made while a change that should have been refused was ACCEPTED instead (the setting in force is
+    then not an allowed one: that is C12's subject, and nothing can be asked of the conversion)"""
+    out, tainted = set(), False
+    for k, (op, st) in enumerate(zip(case["ops"], impl.get("steps", []))):
+        if op.get("keep"):
+            tainted = tainted or not all(st.get("refused", []))
+        else:
+            tainted = False  # bits and range are set again after the attempts
+        if tainted:
+            out.add(k)
+    return out
+
+
+def describe_op(o):
+    ref = "".join(f", refused {r['what']}={r['value']!r} via {r['via']}" for r in o.get("refused", []))
+    return (f"{op_name(o)}[{o['bits']} bit{', data_type=' + o['data_type'] if o.get('data_type') else ''}"
+            f"{', image emptied' if o.get('empty_before') else ''}{', settings kept' if o.get('keep') else ''}{ref}]")
+
+
 def history_findings(case, impl):
     """every conversion of a history judged on its own against the statement: [(k, clause, why)]"""
     if "error" in impl:
         return [(0, "error", f"could not build the detector: {impl.get('msg', impl['error'])}")]
     out = []
+    skip = unjudged_ops(case, impl)
     for k, (op, st) in enumerate(zip(case["ops"], impl["steps"])):
-        if op.get("narrow"):
+        if op.get("narrow") or k in skip:
             continue  # an explicit data_type narrower than get_dtype(bits) is outside the statement
         for clause, why, _ in property_predicate(op, st):
-            hist = " → ".join(f"{op_name(o)}[{o['bits']} bit{', data_type=' + o['data_type'] if o.get('data_type') else ''}{', image emptied' if o.get('empty_before') else ''}]" for o in case["ops"][: k + 1])
-            out.append((k, clause, f"conversion {k} of the history {hist} on one detector: {why}"))
+            hist = " → ".join(describe_op(o) for o in case["ops"][: k + 1])
+            out.append((k, clause, f"conversion {k} of the history {hist} on one {case.get('detector', 'CCD')} detector: {why}"))
     return out
+
+
+def sweep_runs(case):
+    """the single conversions a resolution sweep consists of (one per swept value, same frame and range)"""
+    runs = []
+    for b in case["bits_list"]:
+        sub = {"kind": case["conv"], "bits": b, "vmin": case["vmin"], "vmax": case["vmax"], "vs": case["vs"],
+               "shape": case["shape"], "w": None}
+        if case["conv"] == "simple":
+            sub["data_type"] = None
+        runs.append(sub)
+    return runs
+
+
+def sweep_findings(case, impl):
+    if "error" in impl:
+        return [(0, "error", f"observation sweeping adc_bit_resolution over {case['bits_list']} failed: {impl.get('msg', impl['error'])}")]
+    out = []
+    how = "dask" if case["with_dask"] else "sequential"
+    for k, (sub, st) in enumerate(zip(case["_runs"], impl["runs"])):
+        for clause, why, _ in property_predicate(sub, st):
+            out.append((k, clause, f"{how} observation sweeping adc_bit_resolution over {case['bits_list']} ({op_name(sub)}, "
+                                   f"{case.get('detector', 'CCD')}), image returned for {sub['bits']} bit: {why}"))
+    return out
+
+
+def gen_sweep(rng, with_dask, order):
+    pool = [4, 8, 9, 12, 16, 17, 24, 32, 33, 40]
+    n = rng.choice([2, 3, 3, 4])
+    bl = sorted(rng.sample(pool, n))
+    if bl[0] > 8 and rng.random() < 0.6:
+        bl[0] = rng.choice([4, 6, 8])  # the narrowest type first / last
+    if order == "decreasing":
+        bl = bl[::-1]
+    elif order == "mixed":
+        while n > 2 and (bl == sorted(bl) or bl == sorted(bl, reverse=True)):
+            rng.shuffle(bl)
+    conv = rng.choice(["simple", "simple", "sar"])
+    vmin, vmax = rng.choice(HARVESTED + [(0.0, 10.0)])
+    if conv == "sar":
+        vmin, vmax = 0.0, abs(vmax)
+    vs = [vmax, ulps(vmax, 1), vmax * 2 + 1, vmin, vmin - 1.0, ulps(vmax, -1)] + [rng.uniform(vmin, vmax) for _ in range(6)]
+    rng.shuffle(vs)
+    return {"kind": "sweep", "conv": conv, "bits_list": bl, "order": order, "with_dask": with_dask, "initial_bits": rng.choice([16, 8, 32]),
+            "vmin": float_bits(vmin), "vmax": float_bits(vmax), "vs": [float_bits(v) for v in vs], "shape": [3, 4],
+            "detector": rng.choice(["CCD", "CCD", "CMOS", "MKID", "APD"])}
 
 
 def gen_history(rng, nv=16):
@@ -382,12 +534,25 @@ def gen_history(rng, nv=16):
     ops = []
     # resolutions chosen so that consecutive conversions often cross a type boundary, in both directions
     pool = [4, 8, 9, 12, 16, 17, 24, 32, 33, 48, 64]
+    detector = rng.choice(["CCD", "CCD", "CMOS", "MKID", "APD", "APD"])
+    with_refusals = rng.random() < 0.5
     for k in range(n):
+        refused, keep = [], False
+        if with_refusals and rng.random() < 0.7:
+            for _ in range(rng.choice([1, 1, 2])):
+                if rng.random() < 0.75:
+                    refused.append({"what": "bits", "value": rng.choice(REFUSED_BITS), "via": rng.choice(["setter", "setter", "processor"])})
+                else:
+                    refused.append({"what": "range", "value": rng.choice(REFUSED_RANGE), "via": "setter"})
+            keep = rng.random() < 0.75  # the setting in force stays the last accepted one: nothing is set again
         bits = rng.choice(pool) if rng.random() < 0.8 else rng.randrange(4, 65)
         vmin, vmax = gen_range(rng)
         while not (vmin < vmax) or math.isinf(vmax - vmin):
             vmin, vmax = gen_range(rng)
         kind = rng.choice(["simple", "simple", "simple", "sar", "sar_noise"])
+        if keep and k > 0:
+            prev = ops[-1]
+            bits, vmin, vmax = prev["bits"], bits_float(prev["vmin"]), bits_float(prev["vmax"])
         extra = {"w": None}
         if kind == "simple":
             r = rng.random()
@@ -399,7 +564,7 @@ def gen_history(rng, nv=16):
                 extra["w"] = width_of(dt)
             vs = gen_voltages_simple(rng, bits, vmin, vmax, nv)
         else:
-            if rng.random() < 0.7:
+            if rng.random() < 0.7 and not (keep and k > 0):
                 vmin, vmax = 0.0, abs(vmax) if vmax != 0 else 1.0
             vs = gen_voltages_sar(rng, bits, vmax, nv)
             if kind == "sar_noise":
@@ -409,8 +574,9 @@ def gen_history(rng, nv=16):
         vs[0], vs[1] = (vmax, ulps(vmax, 1)) if kind == "simple" else (vmax * 2 if vmax > 0 else 1.0, INF)
         op = mk_case(kind, bits, vmin, vmax, vs, **extra)
         op["empty_before"] = k > 0 and rng.random() < 0.3
+        op["refused"], op["keep"] = refused, keep
         ops.append(op)
-    return {"kind": "history", "shape": ops[0]["shape"], "ops": ops}
+    return {"kind": "history", "shape": ops[0]["shape"], "ops": ops, "detector": detector}
 
 
 # ------------------------------------------------------------------ the check
@@ -524,10 +690,18 @@ def body(ck: common.Check):
     # signal frame and the settings only, whatever the image bucket held before)
     for _ in range(60 if quick else 600):
         cases.append(gen_history(rng))
+    # the converters reached through pyxel.run_mode: observations sweeping adc_bit_resolution, sequential and dask,
+    # resolutions in increasing / decreasing / mixed order; the image RETURNED for every swept value is judged
+    for order in ("increasing", "decreasing", "mixed"):
+        for with_dask in (False, True):
+            for _ in range(1 if quick else 6):
+                sw = gen_sweep(rng, with_dask, order)
+                sw["_runs"] = sweep_runs(sw)
+                cases.append(sw)
     # default widths come from the implementation's own get_dtype (the table theorem ties it to the model)
     singles = []
     for c in cases:
-        singles += c["ops"] if c["kind"] == "history" else [c]
+        singles += c["ops"] if c["kind"] == "history" else c["_runs"] if c["kind"] == "sweep" else [c]
     for c in singles:
         if c["kind"] in ("simple", "sar", "sar_noise"):
             if c.get("w") is None:
@@ -546,8 +720,30 @@ def body(ck: common.Check):
                 ck.disagreement("rn53", case, case["expect"], ans["rn"])
             continue
         impl = run_impl(case)
+        if kind == "sweep":
+            pub = {k: v for k, v in case.items() if k != "_runs"}
+            ck.case(pub, nontrivial=True, stream="sweep")
+            ck.count(f"sweep-{'dask' if case['with_dask'] else 'sequential'}-{case['order']}")
+            for k, clause, why in sweep_findings(case, impl):
+                ck.violation(f"C16:sweep-{'dask' if case['with_dask'] else 'sequential'}:{op_name(case['_runs'][k])}:{clause}", why,
+                             {"case": pub, "impl": impl})
+            for k, (sub, st) in enumerate(zip(case["_runs"], impl.get("runs", []))):
+                a = answers[id(sub)]
+                if "bad" in a:
+                    raise common.InfraError(f"driver rejected request: {a}")
+                if st.get("codes") != a["f"]:
+                    ck.disagreement("sweep", {"sweep": pub, "run": k}, st, {"codes": a["f"]})
+                    ck.count("disagree")
+            if "error" in impl:
+                ck.disagreement("sweep", pub, impl, None)
+            continue
         if kind == "history":
             ck.case(case, nontrivial=True, stream="history")
+            ck.count(f"history-detector={case.get('detector', 'CCD')}")
+            nref = [r for st in impl.get("steps", []) for r in st.get("refused", [])]
+            ck.count("history-refused-changes", len(nref))
+            ck.count("history-refusal-not-refused", sum(1 for r in nref if not r))
+            skip_ops = unjudged_ops(case, impl)
             ck.count(f"history-length={len(case['ops'])}")
             widths = [op["w"] for op in case["ops"]]
             ck.count("history-widening", sum(1 for a, b in zip(widths, widths[1:]) if b > a))
@@ -555,12 +751,14 @@ def body(ck: common.Check):
             ck.count("history-emptied-between", sum(1 for op in case["ops"] if op.get("empty_before")))
             for k, clause, why in history_findings(case, impl):
                 # smallest history that still shows it: drop the conversions after the failing one
-                small = {"kind": "history", "shape": case["shape"], "ops": case["ops"][: k + 1]}
+                small = {"kind": "history", "shape": case["shape"], "ops": case["ops"][: k + 1], "detector": case.get("detector", "CCD")}
                 simpl = run_impl(small)
                 ok = any(kk == k and cl == clause for kk, cl, _ in history_findings(small, simpl))
                 ck.violation(f"C16:history:{op_name(case['ops'][k])}:{clause}", why,
                              {"case": small if ok else case, "impl": simpl if ok else impl})
             for k, (op, st) in enumerate(zip(case["ops"], impl.get("steps", []))):
+                if k in skip_ops:
+                    continue
                 a = answers[id(op)]
                 if "bad" in a:
                     raise common.InfraError(f"driver rejected request: {a}")
@@ -624,7 +822,11 @@ def body(ck: common.Check):
                "HISTORIES of 2–4 conversions on one detector object mixing simple_adc / sar_adc / sar_adc_with_noise(0), with "
                "adc_bit_resolution / adc_voltage_range / data_type changed through the public setters between them (widening "
                "and narrowing across the 8/16/32/64-bit type boundaries), image bucket emptied or not in between, every "
-               "conversion judged against the statement and against the model of that single conversion. "
+               "conversion judged against the statement and against the model of that single conversion; histories run on CCD / CMOS / "
+               "MKID / APD detectors and contain REFUSED changes of a converter setting (adc_bit_resolution 3, 2, 0, -1, 65, 100; "
+               "malformed adc_voltage_range; through the setter or Processor.set) followed by a conversion with the settings left as they "
+               "were: the setting in force is the last accepted one; OBSERVATIONS through pyxel.run_mode sweeping adc_bit_resolution "
+               "(increasing / decreasing / mixed order, sequential and dask), the image returned for every swept value judged. "
                "non-trivial = every converter case; distinct by canonical JSON") % (rounds, 7 if quick else 12)
     ck.assumptions = [
         "allowed converter setting = 4 ≤ bits ≤ 64, finite doubles vmin < vmax whose difference does not overflow; NaN voltages are outside the statement",
@@ -652,6 +854,11 @@ def replay_main(path):
         for op in case["ops"]:
             op.setdefault("w", default_width(op["bits"]))
         findings = [(clause, why, None) for _, clause, why in history_findings(case, impl)]
+    elif case.get("kind") == "sweep":
+        case["_runs"] = sweep_runs(case)
+        for sub in case["_runs"]:
+            sub["w"] = default_width(sub["bits"])
+        findings = [(clause, why, None) for _, clause, why in sweep_findings(case, impl)]
     else:
         findings = property_predicate(case, impl)
     print("impl:", json.dumps(impl)[:2000])
